@@ -144,7 +144,8 @@ func (u User) AuthorizeAction(action Action) error {
 		for {
 			if p, ok := u.privileges[resource]; ok {
 				// Found matching resource
-				authorized := p&action.Privilege != 0 || p == AllPrivileges
+				// AllPrivileges implies every privilege, also when it was granted together with others.
+				authorized := p&action.Privilege != 0 || p&AllPrivileges != 0
 				if authorized {
 					return nil
 				} else {
